@@ -10,8 +10,8 @@ def sh(cmd, cwd=None):
     p = subprocess.run(cmd, shell=True, cwd=cwd, env=ENV, stdout=subprocess.PIPE, stderr=subprocess.STDOUT)
     return p.returncode, p.stdout.decode(errors='replace')
 prop, k = sys.argv[1], sys.argv[2]
-src = f"/tmp/wt-{prop}/SEED{k}"
-sid = f"{prop}-{k}"
+src = os.environ.get('SEED_WT', f"/tmp/wt-{prop}") + f"/SEED{k}"
+sid = os.environ.get('SEED_ID', f"{prop}-{k}")
 scratch = f"/var/tmp/seedimp-{os.getpid()}"
 shutil.rmtree(scratch, ignore_errors=True)
 os.makedirs(scratch)
